@@ -611,7 +611,8 @@ func genContent(r *core.Rand, tier string) []byte {
 var rawTargets = []string{"/a.txt", "/sub/b.txt", "/sub/../a.txt", "/../secret.txt", "/../../secret.txt", "/sub/../../secret.txt",
 	"/%2e%2e/secret.txt", "/..%2fsecret.txt", "/%2e%2e%2f%2e%2e%2fsecret.txt", "//a.txt", "/./a.txt", "/sub//deep/./c.txt", "/sub/deep/../../../rootx/d.txt",
 	"/../rootx/d.txt", "/..hidden", "/...", "/sub/..", "/sub/../", "/", "", "*", "/sub/secret.txt", "/a.txt/", "/a.txt/..", "/nonexistent", "/sub/deep/..%2f..%2f..%2f..%2fsecret.txt",
-	"http://h/../secret.txt", "http://h", "http://h/sub/../../rootx/d.txt", "/\\..\\secret.txt", "/sub/%2e%2e/%2e%2e/%2e%2e/secret.txt"}
+	"http://h/../secret.txt", "http://h", "http://h/sub/../../rootx/d.txt", "/\\..\\secret.txt", "/sub/%2e%2e/%2e%2e/%2e%2e/secret.txt",
+	"/..;v=2/secret.txt", "/sub/..;x=1/..;x=1/secret.txt", "/%2e%2e;p/secret.txt", "/a.txt;v=2", "/sub;p/b.txt", "/..%3b/secret.txt"}
 
 func urlPathOf(target string) (string, bool) {
 	raw := "GET " + target + " HTTP/1.1\r\nHost: example.com\r\n\r\n"
@@ -634,7 +635,11 @@ func genTarget(r *core.Rand) string {
 	var b strings.Builder
 	for i := 0; i < n; i++ {
 		b.WriteString("/")
-		b.WriteString(segs[r.Intn(len(segs))])
+		seg := segs[r.Intn(len(segs))]
+		if r.Chance(1, 8) { // decorations a path segment may legally carry: parameters, odd separators, encoded ones
+			seg += r.Pick(";", ";v=2", ";x=1;y", "%3bp", " ", "%20", "%00", "\\", "%5c..", "?", "#")
+		}
+		b.WriteString(seg)
 	}
 	if r.Chance(1, 5) {
 		b.WriteString("/")
